@@ -15,10 +15,11 @@
 **   raw63 raw64 raw65 raw72 raw100 raw127 raw128 raw129 raw200 raw300   big structs: first / last byte and
 **           the bytes on both sides of every 64-byte boundary varied (reduced grid, see vf_cmp.h)
 **
-** Parameters:  dom=all | comma list of int,float,string,type,recycled,reptuple,raw     grid=small|large
+** Parameters:  dom=all | comma list of int,float,string,type,recycled,reptuple,mixed,raw     grid=small|large
 **              (rawall = every raw* domain, rawbig = raw63 .. raw300)
 **              recycled = run-time record types created, deleted and re-created with another size (vf_cmp.h)
 **              reptuple = Tuples referencing one object at several positions as left operand of container cmp
+**              mixed = values of different types (a refusal is fine, an answer must be an order)
 **              replay="<dom> pair i j" | "<dom> triple i j k" | "<dom> triples i j"
 **                     | "<dom> tree|table <order>"
 **
@@ -470,6 +471,117 @@ static void run_recycled(void) {
   if (rec_same_address == 0) vf_note("recycled run-time types: the allocator never handed the deleted Type block back (sanitizer quarantine?); the same-address cases were NOT exercised in this instance and are not counted");
 }
 
+/* ---- values of DIFFERENT types -------------------------------------------------------------------
+**
+** HEAD refuses every comparison between two different value types (Int, Float, String, plain struct, Ref,
+** Box, Type) with an exception in BOTH directions - measured, the one exception being cmp(String, Type),
+** which String answers through the Type's C_Str face while Type refuses the mirror image.  A refusal is
+** fine; an ANSWER must still be an order:  for every ordered pair of the pool (values of all these types,
+** Ints and Floats incl. non-integral, beyond 2^53, negative, infinite; Tuples holding mixed elements)
+**   both directions answered  => sign(cmp(a,b)) == -sign(cmp(b,a)); cmp == 0 => eq both ways
+**   exactly one answered      => violation unless it is String-vs-Type (recorded as a feature)
+** and for every triple whose three comparisons are all answered, transitivity.
+*/
+#define MX_MAX 64
+#define MX_RAISED 9
+struct mx_obj { var o; const char* type; char desc[40]; int mixed_tuple; };
+static struct mx_obj mx[MX_MAX]; static int nmx;
+static signed char MXM[MX_MAX][MX_MAX];
+
+static void mx_add(var o, const char* type, int mixed_tuple, const char* fmt, ...) {
+  mx[nmx].o = o; mx[nmx].type = type; mx[nmx].mixed_tuple = mixed_tuple;
+  va_list ap; va_start(ap, fmt); vsnprintf(mx[nmx].desc, sizeof mx[nmx].desc, fmt, ap); va_end(ap);
+  nmx++;
+}
+static var mx_tuple(var a, var b) { var t = new_raw(Tuple); push(t, a); if (b) push(t, b); return t; }
+
+static void mx_build(void) {
+  static const int64_t ints[] = { 0, 1, -1, 2, 9007199254740993LL, -9007199254740993LL, INT64_MAX, INT64_MIN };
+  static const double flts[] = { 0.0, -0.0, 1.0, 1.5, 0.5, -1.0, -1.75, 2.0, 9007199254740992.0, 9007199254740994.0, 9.3e18, 1e300, -INFINITY, INFINITY };
+  static const char* strs[] = { "", "1", "1.5", "a", "Int" };
+  var I[8], F[14];
+  for (size_t k = 0; k < 8; k++) { I[k] = new_raw(Int, $I(ints[k])); mx_add(I[k], "Int", 0, "I(%" PRId64 ")", ints[k]); }
+  for (size_t k = 0; k < 14; k++) { F[k] = new_raw(Float, $F(flts[k])); mx_add(F[k], "Float", 0, "F(%g)", flts[k]); }
+  for (size_t k = 0; k < 5; k++) mx_add(new_raw(String, $S((char*)strs[k])), "String", 0, "S(\"%s\")", strs[k]);
+  RW = raw_find("raw");
+  for (int k = 0; k < 2; k++) { var r = alloc_raw(Raw8); memcpy(r, RW->v[k ? RW->n - 1 : 0], 8); mx_add(r, "Raw8", 0, "Raw8#%d", k); }
+  mx_add(new_raw(Ref, I[1]), "Ref", 0, "Ref(I1)"); mx_add(new_raw(Ref, F[3]), "Ref", 0, "Ref(F1.5)");
+  { struct Box* b = alloc_raw(Box); b->val = I[1]; mx_add(b, "Box", 0, "Box(I1)"); }   /* never deleted: the Box must not free its target */
+  mx_add(Int, "Type", 0, "Type Int"); mx_add(Float, "Type", 0, "Type Float"); mx_add(String, "Type", 0, "Type String");
+  /* Tuples: same-type elements and mixed elements (I[1]=1, I[3]=2, I[2]=-1, F[2]=1.0, F[3]=1.5, F[5]=-1.0, F[6]=-1.75) */
+  mx_add(mx_tuple(I[1], NULL), "Tuple", 0, "(I1)");      mx_add(mx_tuple(F[3], NULL), "Tuple", 0, "(F1.5)");
+  mx_add(mx_tuple(F[2], NULL), "Tuple", 0, "(F1.0)");    mx_add(mx_tuple(I[3], NULL), "Tuple", 0, "(I2)");
+  mx_add(mx_tuple(I[2], NULL), "Tuple", 0, "(I-1)");     mx_add(mx_tuple(F[5], NULL), "Tuple", 0, "(F-1.0)");
+  mx_add(mx_tuple(F[6], NULL), "Tuple", 0, "(F-1.75)");
+  mx_add(mx_tuple(I[1], F[3]), "Tuple", 1, "(I1,F1.5)"); mx_add(mx_tuple(F[3], I[1]), "Tuple", 1, "(F1.5,I1)");
+  mx_add(mx_tuple(I[1], I[3]), "Tuple", 0, "(I1,I2)");   mx_add(mx_tuple(F[2], F[3]), "Tuple", 0, "(F1.0,F1.5)");
+  mx_add(mx_tuple(F[2], I[3]), "Tuple", 1, "(F1.0,I2)"); mx_add(mx_tuple(I[1], F[2]), "Tuple", 1, "(I1,F1.0)");
+}
+
+static void run_mixed(void) {
+  vf.phase = "cmp-mixed-types";
+  D.name = "mixed-types";
+  mx_build();
+  int oi = -1, oj = -1, ok_ = -1; char kind[16] = "";
+  if (vf.replay && sscanf(vf.replay, "mixed %15s %d %d %d", kind, &oi, &oj, &ok_) < 3) return;
+  vf_watchdog(120);
+  uint64_t refused = 0, answered = 0, oneway_known = 0;
+  for (int i = 0; i < nmx; i++) for (int j = 0; j < nmx; j++) {
+    vf_set_cur("mixed pair %d %d | a=%s b=%s", i, j, mx[i].desc, mx[j].desc);
+    volatile int c = 0;
+    var ex = VF_CATCH(c = cmp(mx[i].o, mx[j].o));
+    MXM[i][j] = ex ? MX_RAISED : (signed char)SIGN(c);
+    vf.executions++;
+  }
+  for (int i = 0; i < nmx; i++) for (int j = i + 1; j < nmx; j++) {
+    if (vf.replay && !(!strcmp(kind, "pair") && ((i == oi && j == oj) || (i == oj && j == oi)))) continue;
+    char kase[160], feat[48];
+    snprintf(kase, sizeof kase, "mixed pair %d %d | a=%s b=%s", i, j, mx[i].desc, mx[j].desc);
+    vf_set_cur("%s", kase);
+    snprintf(feat, sizeof feat, "%s-vs-%s", mx[i].type, mx[j].type);
+    int x = MXM[i][j], y = MXM[j][i];
+    int cross = strcmp(mx[i].type, mx[j].type) != 0 || mx[i].mixed_tuple || mx[j].mixed_tuple;
+    vf.evaluations++;
+    if (x == MX_RAISED && y == MX_RAISED) { refused++; if (cross) vf.nontrivial++; continue; }
+    if (x == MX_RAISED || y == MX_RAISED) {
+      int si = x == MX_RAISED ? j : i, oi2 = x == MX_RAISED ? i : j;     /* si answered as the left operand */
+      if (!strcmp(mx[si].type, "String") && !strcmp(mx[oi2].type, "Type")) { oneway_known++; continue; }
+      vf_violation(L(feat, "answered-one-way-only"), kase, "cmp(%s, %s) answers %d but the mirror image raises: not an order", mx[si].desc, mx[oi2].desc, (int)MXM[si][oi2]);
+      continue;
+    }
+    answered++;
+    if (cross) vf.nontrivial++;
+    vf.evaluations += 2;
+    if (x != -y) vf_violation(L(feat, "antisymmetry"), kase, "sign cmp(a,b) = %d, sign cmp(b,a) = %d", x, y);
+    if (x == 0 || y == 0) {
+      volatile bool e1 = false, e2 = false;
+      var ex = VF_CATCH(e1 = eq(mx[i].o, mx[j].o); e2 = eq(mx[j].o, mx[i].o));
+      if (ex || !e1 || !e2 || x != y) vf_violation(L(feat, "cmp-zero-one-way"), kase, "cmp(a,b) = %d, cmp(b,a) = %d, eq = %d / %d%s", x, y, (int)e1, (int)e2, ex ? " (eq raised)" : "");
+    }
+    if (cross && vf_want_sample()) vf_sample("%s -> %d / %d", kase, x, y);
+  }
+  for (int i = 0; i < nmx; i++) for (int j = 0; j < nmx; j++) {
+    if (i == j || MXM[i][j] == MX_RAISED) continue;
+    for (int k = 0; k < nmx; k++) {
+      if (k == i || k == j || MXM[j][k] == MX_RAISED || MXM[i][k] == MX_RAISED) continue;
+      if (vf.replay && !(!strcmp(kind, "triple") && i == oi && j == oj && k == ok_)) continue;
+      int x = MXM[i][j], y = MXM[j][k], z = MXM[i][k], ok = 1;
+      vf.evaluations++;
+      if (x <= 0 && y <= 0) { if (z > 0) ok = 0; if ((x < 0 || y < 0) && z >= 0) ok = 0; }
+      if (x >= 0 && y >= 0) { if (z < 0) ok = 0; if ((x > 0 || y > 0) && z <= 0) ok = 0; }
+      if (!ok) {
+        char kase[200];
+        snprintf(kase, sizeof kase, "mixed triple %d %d %d | a=%s b=%s c=%s", i, j, k, mx[i].desc, mx[j].desc, mx[k].desc);
+        int crossT = strcmp(mx[i].type, mx[j].type) || strcmp(mx[j].type, mx[k].type);
+        vf_violation(L(crossT ? "mixed-type-triple" : "same-type-triple", "transitivity"), kase, "sign cmp(a,b) = %d, sign cmp(b,c) = %d, but sign cmp(a,c) = %d", x, y, z);
+      }
+    }
+  }
+  if (vf.replay) return;
+  vf_extra("mixed_types", "{\"pool\": %d, \"unordered_pairs\": %d, \"refused_both_ways\": %" PRIu64 ", \"answered_both_ways\": %" PRIu64 ", \"string_vs_type_one_way\": %" PRIu64 "}",
+    nmx, nmx * (nmx - 1) / 2, refused, answered, oneway_known);
+}
+
 /* ---- Tuples that reference ONE object at several positions -------------------------------------
 **
 ** Tuple_Cmp, Tuple_Hash, len and get walk a Tuple by index, so such a Tuple is a perfectly good value
@@ -636,7 +748,7 @@ int main(int argc, char** argv) {
   const char* doms = vf_param("dom", "all");
   if (vf.replay) {
     char dn[16];
-    if (sscanf(vf.replay, "%15s", dn) == 1) { if (!strcmp(dn, "recycled")) run_recycled(); else if (!strcmp(dn, "reptuple")) run_reptuple(); else run_domain(dn); }
+    if (sscanf(vf.replay, "%15s", dn) == 1) { if (!strcmp(dn, "recycled")) run_recycled(); else if (!strcmp(dn, "reptuple")) run_reptuple(); else if (!strcmp(dn, "mixed")) run_mixed(); else run_domain(dn); }
     vf_finish();
   }
   static const char* all[] = { "int", "float", "string", "type", "raw", "raw1", "raw3", "raw4", "raw7", "raw9", "raw12", "raw16", "raw20", "raw21", "raw63", "raw64", "raw65", "raw72", "raw100", "raw127", "raw128", "raw129", "raw200", "raw300" };
@@ -646,6 +758,7 @@ int main(int argc, char** argv) {
   }
   if (vfg_dom_selected(doms, "recycled")) run_recycled();
   if (vfg_dom_selected(doms, "reptuple")) run_reptuple();
+  if (vfg_dom_selected(doms, "mixed")) run_mixed();
   vf.states = 0;
   vf_finish();
   return 0;
